@@ -389,6 +389,58 @@ UNPACKABLE = [
     ({'prim': 'set', 'args': [{'prim': 'nat'}]}, None),   # control: packable
 ]
 
+NON_PACKABLE_PARTS = [
+    {'prim': 'operation'}, {'prim': 'list', 'args': [{'prim': 'operation'}]},
+    {'prim': 'big_map', 'args': [{'prim': 'nat'}, {'prim': 'string'}]}, {'prim': 'ticket', 'args': [{'prim': 'nat'}]},
+    {'prim': 'sapling_state', 'args': [{'int': '8'}]}, {'prim': 'contract', 'args': [{'prim': 'ticket', 'args': [{'prim': 'unit'}]}]},
+    {'prim': 'pair', 'args': [{'prim': 'nat'}, {'prim': 'big_map', 'args': [{'prim': 'nat'}, {'prim': 'nat'}]}]},
+    {'prim': 'option', 'args': [{'prim': 'ticket', 'args': [{'prim': 'string'}]}]},
+]
+LAMBDA_BODIES = [[{'prim': 'FAILWITH'}], [{'prim': 'DROP'}, {'prim': 'UNIT'}, {'prim': 'FAILWITH'}], []]
+
+
+def lambda_signature_cases(rng):
+    """Tezos packs every lambda, whatever its signature mentions: lambda types whose argument / return type is not
+    packable itself, at top level and nested; (type, readable literal, abstract value)"""
+    out = []
+    for part in NON_PACKABLE_PARTS:
+        for pos in (0, 1):
+            args = [{'prim': 'unit'}, {'prim': 'unit'}]
+            args[pos] = part
+            lam = {'prim': 'lambda', 'args': args}
+            code = rng.choice(LAMBDA_BODIES)
+            wrap = rng.choice(['plain', 'plain', 'option', 'pair', 'list', 'map'])
+            if wrap == 'plain':
+                out.append((lam, code, ('lambda', code), lam, code))
+            elif wrap == 'option':
+                out.append(({'prim': 'option', 'args': [lam]}, {'prim': 'Some', 'args': [code]}, ('some', ('lambda', code)), lam, code))
+            elif wrap == 'pair':
+                out.append(({'prim': 'pair', 'args': [{'prim': 'nat'}, lam]}, {'prim': 'Pair', 'args': [{'int': '5'}, code]},
+                            ('pair', ('int', 5), ('lambda', code)), lam, code))
+            elif wrap == 'list':
+                out.append(({'prim': 'list', 'args': [lam]}, [code, code], ('list', [('lambda', code), ('lambda', code)]), lam, code))
+            else:
+                out.append(({'prim': 'map', 'args': [{'prim': 'string'}, lam]}, [{'prim': 'Elt', 'args': [{'string': 'k'}, code]}],
+                            ('map', [(('str', b'k'), ('lambda', code))]), lam, code))
+    return out
+
+
+def interp_lambda_pack(lam_t, code):
+    """LAMBDA a b { code } ; PACK through the Interpreter"""
+    from pytezos.michelson.repl import Interpreter
+    from pytezos.michelson.format import micheline_to_michelson
+    i = Interpreter()
+    a, b = (wrap(micheline_to_michelson(x)) for x in lam_t['args'])
+    body = micheline_to_michelson(code) if code else '{}'
+    r = i.execute(f'LAMBDA {a} {b} {body}')
+    if r.error:
+        return 'lambda-failed', str(r.error)
+    r = i.execute('PACK')
+    if r.error:
+        return 'pack-failed', str(r.error)
+    return 'ok', bytes(i.stack.items[0])
+
+
 OCTEZ_VECTORS = [
     # tests/unit_tests/test_michelson/test_repl/test_opcodes.py, packunpack.tz (produced by Octez)
     ({'prim': 'pair', 'args': [{'prim': 'pair', 'args': [{'prim': 'string'}, {'prim': 'list', 'args': [{'prim': 'int'}]}]}, {'prim': 'set', 'args': [{'prim': 'nat'}]}]},
@@ -502,6 +554,37 @@ def run(ctx: lib.Ctx) -> None:
                 continue
             ctx.corpus_cases += 1
             add_unpack(c['type'], G.norm_type(c['type']), T, bytes.fromhex(c['bytes']), 'corpus', {'type': c['type']}, False)
+
+    # ---- every lambda is packable, whatever its signature mentions
+    for tj, lit, v, lam_t, code in lambda_signature_cases(rng):
+        okT, T = lib.call(match_type, tj)
+        if not okT:
+            ctx.dist['lambda-signature:type-rejected'] += 1
+            continue
+        n = G.norm_type(tj)
+        meta = {'type': tj, 'value_readable': lit}
+        ctx.case(('lambda-signature', json.dumps(tj), json.dumps(lit)), nontrivial=True, kind='lambda-signature')
+        okv, obj = lib.call(T.from_micheline_value, copy.deepcopy(lit))
+        okp, packed = lib.call(obj.pack) if okv else (False, obj)
+        st = spec_tree(v)
+        if not okp or not T.is_packable() or packed != b'\x05' + enc_tree(st):
+            viols.append((f'a lambda whose signature mentions a non-packable type is not packed as Tezos packs it: {packed if not okp else packed.hex()}',
+                          dict(meta, expected=(b'\x05' + enc_tree(st)).hex(),
+                               repro=f"MichelsonType.match({json.dumps(tj)}).from_micheline_value({json.dumps(lit)}).pack()")))
+            continue
+        oku, back = lib.call(T.unpack, packed)
+        if not oku or G.ast_of_obj(back) != v:
+            viols.append(('UNPACK of PACK does not return the value (lambda signature)', dict(meta, packed=packed.hex(),
+                          repro=f"T=MichelsonType.match({json.dumps(tj)}); T.unpack(T.from_micheline_value({json.dumps(lit)}).pack())")))
+        pack_cases.append((f'({G.coq_env(G.ShaTable(), {})}, false, {G.coq_ty(n)}, {G.coq_val(v)})', cok(chex(packed))))
+        pack_meta.append(dict(meta, packed=packed.hex()))
+        add_unpack(tj, n, T, packed, 'lambda-signature', meta, False)
+        sti, ib = interp_lambda_pack(lam_t, code)
+        ctx.dist[f'interp:LAMBDA;PACK:{sti}'] += 1
+        want = b'\x05' + enc_tree(code)
+        if sti == 'pack-failed' or (sti == 'ok' and ib != want):
+            viols.append((f'LAMBDA ; PACK through the interpreter does not give the packed lambda: {ib if sti != "ok" else ib.hex()}',
+                          dict(meta, lambda_type=lam_t, expected=want.hex(), repro="Interpreter().execute('LAMBDA <a> <b> { ... } ; PACK')")))
 
     # ---- types that cannot be packed
     for tj, val in UNPACKABLE:
